@@ -441,6 +441,7 @@ def c19_jobs(tier):
         tag = '+'.join(x.replace('FFSM2_ENABLE_', '').replace('FFSM2_', '').lower() for x in sw) if len(sw) <= 3 else 'set%03d' % i
         variant = dict(MANUAL=(i % 2), PAYLOAD=((i // 2) % 2))
         J.append(cj('cfg-base-vs-%s' % tag, base, dict((x, '') for x in sw), common=variant))
+    J.append(cj('cfg-base-vs-plans-manual-payload', base, dict(FFSM2_ENABLE_PLANS=''), common=dict(MANUAL=1, PAYLOAD=1)))
     # programs that USE one feature: enabling further, unused switches must not change them either
     P, S, H, L = 'FFSM2_ENABLE_PLANS', 'FFSM2_ENABLE_SERIALIZATION', 'FFSM2_ENABLE_TRANSITION_HISTORY', 'FFSM2_ENABLE_LOG_INTERFACE'
     uses = [('serial', dict(USE_SERIAL=1), [S], [[P], [H], [P, H, L]]), ('history', dict(USE_HISTORY=1), [H], [[P], [S], [P, S, L]]), ('plans', dict(USE_PLANS=1), [P], [[S], [H], [S, H, L]])]
